@@ -10,12 +10,12 @@ META = {
                         "characters with 7 symbolic positions) + one input byte (all values but NUL) through the real console_run; lookup over any sorted "
                         "table of <= 4 symbolic names; registration into it incl. tables with 31 and 32 occupied slots; console_eval of any string <= 4 "
                         "characters into a ring pre-filled with 0..15 characters, consumer draining 1..16 characters per yield",
-               "thorough": "tokenizer lines of 10, 12 and 16 characters; editor additionally with two consecutive input bytes from any line of <= 2 characters"},
+               "thorough": "tokenizer lines of 10, 12 and 16 characters; editor additionally with two consecutive input bytes from any line of <= 2 characters, and with a command that yields once before it exits"},
     "outside": ["the whole pipeline per character from console_init (no verdict in 1200 s even for 2 symbolic characters): console_process and console_putchar are "
                 "ringbuf_put + a call/wake-up of console_run, whose every step IS covered from an arbitrary editor state; their composition is by inspection",
                 "lines that start with white space or a quote, empty quoted arguments, a closing quote not followed by white space, more than four tokens: "
                 "the statement does not fix their meaning - memory-safety clauses only",
-                "NUL as an input character (not in the property's alphabet)", "commands that yield (PT_SPAWN relaying is C08's subject)", "console_gpio, libopencm3 glue"],
+                "NUL as an input character (not in the property's alphabet)", "commands that yield: thorough tier only (one yield)", "console_gpio, libopencm3 glue"],
     "assumptions": ["fprintf/fflush are no-ops, console_hwinit is empty", "ctype predicates: cbmc's C-locale models (-D__NO_CTYPE)",
                     "editor representation invariant: bufp = buf + n, buf[0..n) = the edited line, buf[n..80) = 0; re-established by every step (asserted)"],
     "rule": "distinct = harness entry x size parameter.",
@@ -30,6 +30,9 @@ def queries(tier, kf):
         return ("do_tokenize.0:%d,do_tokenize.1:5,strlen.0:%d,strcmp.0:4,find_command.0:4,h_edit.0:81,h_edit.1:81,h_edit.2:81,h_edit.3:81,"
                 "h_edit.4:81,cap.0:5,console_echo.0:5" % (ln + 3, ln + 3))
     qs.append(Query("c15-edit-1step", "c15_edit.c", "h_edit", units=UF, defines={"NMAX": 6, "NSTEP": 1}, unwind=3, unwindset=uw(7), timeout=1800, mem_gb=8))
+    if tier == "thorough":
+        qs.append(Query("c15-edit-1step-yielding-cmd", "c15_edit.c", "h_edit", units=UF, defines={"NMAX": 4, "NSTEP": 1, "CMD_YIELDS": None}, unwind=3, unwindset=uw(5),
+                        timeout=1800, mem_gb=10, object_bits=12, note="the registered command yields once before exiting: the yield is relayed and the command resumed"))
     if tier == "thorough":
         qs.append(Query("c15-edit-2step", "c15_edit.c", "h_edit", units=UF, defines={"NMAX": 2, "NSTEP": 2}, unwind=3, unwindset=uw(4), timeout=1800, mem_gb=8, object_bits=12))
     for nf in (77, 78, 79):
